@@ -41,24 +41,33 @@ ASSUMPTIONS = [
 ]
 
 
+def _absent_or_early(kind_absent, kind_early, defining_text):
+    """the same compiler message has two different causes: the type is nowhere in the header, or it is defined further down"""
+    return lambda m, hdr: (kind_early if (defining_text % m.groupdict()) in hdr else kind_absent) % m.groupdict()
+
+
 CAUSES = [
-    (r"unknown type name .(CBox_c_void|CArc_c_void).", lambda m: "helper_for_absent_type:" + m.group(1)),
-    (r"unknown type name .(u8|u16|u32|u64|i32|i64|usize|bool).", lambda m: "callback_over_primitive"),
-    (r".CGlueTraitObj. is not a class template", lambda m: "traitobj_spec_without_primary"),
-    (r"::context. has incomplete type", lambda m: "nocontext_incomplete_type"),
-    (r".RustMaybeUninit. does not name a type", lambda m: "rustmaybeuninit_undefined"),
-    (r"no default argument for .CGlueCtx.|template argument 2 is invalid", lambda m: "default_container_without_default_context"),
-    (r".NoContext. does not name a type", lambda m: "default_context_falls_back_to_undeclared_nocontext"),
+    (r"unknown type name .(?P<t>CBox_c_void|CArc_c_void).", _absent_or_early("helper_for_absent_type:%(t)s", "type_used_before_definition:%(t)s", "typedef struct %(t)s {")),
+    (r"unknown type name .(u8|u16|u32|u64|i32|i64|usize|bool).", lambda m, hdr: "callback_over_primitive"),
+    (r".CGlueTraitObj. is not a class template", _absent_or_early("traitobj_spec_without_primary", "traitobj_spec_before_primary", "struct CGlueTraitObj {")),
+    (r"::context. has incomplete type", lambda m, hdr: "nocontext_incomplete_type"),
+    (r".RustMaybeUninit. does not name a type", _absent_or_early("rustmaybeuninit_undefined", "rustmaybeuninit_used_before_definition", "RustMaybeUninit {")),
+    (r"expected (primary-)?expression before", lambda m, hdr: "fnptr_argument_misparsed" if __import__("re").search(r"\w\)\(\w+\)\);", hdr) else None),
+    (r"no default argument for .CGlueCtx.|template argument 2 is invalid", lambda m, hdr: "default_container_without_default_context"),
+    (r".NoContext. does not name a type", lambda m, hdr: "default_context_falls_back_to_undeclared_nocontext"),
 ]
 
 
-def compile_cause(first_error_line):
-    """stable name of the root cause of a compile failure: a table of recognised causes, else the normalised first message"""
+def compile_cause(first_error_line, header_text=""):
+    """stable name of the root cause of a compile failure: a table of recognised causes (each tied to a condition on the header,
+    so that an unrelated regression producing the same compiler message gets a different name), else the normalised first message"""
     import re
     for rx, f in CAUSES:
         m = re.search(rx, first_error_line)
         if m:
-            return f(m)
+            c = f(m, header_text)
+            if c:
+                return c
     m = M.DIAG_RE.search(first_error_line)
     return M.normalise_msg(m.group("msg") if m else first_error_line)
 
@@ -86,7 +95,7 @@ def expected_end(lang, info, entry, is_dtor=False):
     return {"count": (1 + (1 if selfret else 0)) if arc else 0, "d1": 0, "d2": 0}
 
 
-def evaluate(case, infos, calls, findings, cr, processed_name):
+def evaluate(case, infos, calls, findings, cr, processed_name, processed_text=""):
     """-> (violations [(sig, desc)], obs)"""
     lang = case["lang"]
     V = []
@@ -111,7 +120,7 @@ def evaluate(case, infos, calls, findings, cr, processed_name):
     if not cr["compiled"]:
         # only the first error is the finding, the rest is cascade (all lines go into the description)
         for where, cls, line in errors[:1]:
-            V.append(("compile_error:%s:%s:%s" % (lang, where, compile_cause(line)), "\n".join(l for _, _, l in errors[:4])))
+            V.append(("compile_error:%s:%s:%s" % (lang, where, compile_cause(line, processed_text)), "\n".join(l for _, _, l in errors[:4])))
         if not errors:
             V.append(("compile_error:%s:unparsed" % lang, (cr["diag"] or "")[:400]))
         return V, {"compiled": False, "errors": sorted(set(c for _, c, _ in errors)), "benign": benign}
@@ -202,7 +211,7 @@ def run_case(case, exe, stubdir, workroot, keep=False):
         with open(os.path.join(wd, sname), "w") as f:
             f.write(src)
         cr = M.compile_and_run(lang, wd, sname)
-        V, obs = evaluate(case, infos, calls, findings, cr, pname)
+        V, obs = evaluate(case, infos, calls, findings, cr, pname, res["output"])
         obs["entries"] = sum(len(i["entries"]) for i in infos)
         return {"violations": V, "obs": obs}
     finally:
@@ -269,9 +278,9 @@ def run(prop, tier, replay, Ctx):
                  "container x context (object and group), several variants per trait, 1..4 traits, 0..2 groups, name clashes, nested names, "
                  "Self-returning entries, header switches; C and C++",
         "config": "the three config keys (quick: each alone + matching pairs; thorough: all 24 combinations) on a header with matching and non-matching objects",
-        "signatures": "full product receiver(3) x return(5) x argument list (all lists of length <= 2 over 7 kinds + 8 lists of length 3-4), packed 5 entries "
+        "signatures": "full product receiver(3) x return(5) x argument list (all 111 lists of length <= 2 over 10 kinds + 8 lists of length 3-4), packed 5 entries "
                       "per vtable, x container(3) x context(2) x form(object, mandatory in group, optional in group) x language(2)",
-        "structure": "full product traits(1..4) x groups(0..2) x shared method name x second (container,context) variant x 3 configs x language(2)",
+        "structure": "full product traits(1..4) x groups(0..2) x shared method name x second (container,context) variant x 25 configs x language(2)",
     }
     entries = wrappers = 0
     for (section, label, case), r in zip(cases, results):
